@@ -285,9 +285,8 @@ for nm in ("normpath", "basename"):
     cc.param("p", T.Obj).returns(T.Obj).modifies().is_pure()
 cc = S.ext("os.path.join", cite="os.path.join(a, b): pure")
 cc.param("a", T.Obj).param("b", T.Obj).returns(T.Obj).modifies().is_pure()
-cc = S.ext("os.chdir", cite="os.chdir(path)")
-cc.param("p", T.Obj).event("chdir", "p").modifies()
-cc = S.ext("multiprocessing.util.log_to_stderr", cite="util.log_to_stderr(level=None)")
+cc = S.ext("os.chdir", cite="os.chdir(path): not tracked")
+cc.param("p", T.Obj).modifies().is_quiet()
 S.cls("mp.TrackerClient", {"_fd": T.Obj, "_pid": T.Obj}, external=True)
 S.glob("<ext>", "multiprocessing.resource_tracker._resource_tracker", T.Ref("mp.TrackerClient"), doc="multiprocessing's own tracker client")
 cc = S.ext("mp.TrackerClient.ensure_running", cite="multiprocessing.resource_tracker.ResourceTracker.ensure_running(): starts multiprocessing's tracker if needed")
@@ -327,3 +326,47 @@ c.ensures("main/name-or-path-when-asked", "implies(init_main_module and 'init_ma
 c.raises("prep/only-start-up-errors", "BaseException", post=KEEPOPEN + " and " + NEWTR + " and " + STABLE_FD)
 c.modifies_ = ["G.fd_open", "G.sig_blocked", "G.tracker_spawns", "G.pid_live", "G.joined", "G.tracker_started",
                "loky_tracker()._fd", "loky_tracker()._pid", "mp_tracker()._fd", "mp_tracker()._pid"]
+
+
+c = SP.contract("prepare", props=["C12", "C18"])
+c.param("data", T.Obj).param("parent_sentinel", T.Obj, default=NONE)
+FIX = "(log_count('call:_fixup_main_from_name') + log_count('call:_fixup_main_from_path') + log_count('raise:_fixup_main_from_name') + log_count('raise:_fixup_main_from_path'))"
+c.ensures("inherit/installs-the-parents-tracker",
+          "implies('tracker_args' in data, loky_tracker()._pid == unbox(data['tracker_args']['pid']) and loky_tracker()._fd == unbox(data['tracker_args']['fd']))", prop="C12")
+c.ensures("inherit/leaves-the-tracker-alone-otherwise", "implies('tracker_args' not in data, loky_tracker()._pid == old(loky_tracker()._pid) and loky_tracker()._fd == old(loky_tracker()._fd))", prop="C12")
+c.ensures("main/never-reloaded-unless-the-parent-asked",
+          f"implies('init_main_from_name' not in data and 'init_main_from_path' not in data, {FIX} == 0)", prop="C18")
+c.ensures("main/reloaded-at-most-once", f"{FIX} <= 1", prop="C18")
+c.raises("prepare/errors-of-the-fix-up-or-logging-propagate", "BaseException",
+         post=f"implies('init_main_from_name' not in data and 'init_main_from_path' not in data, {FIX} == 0)", prop="C18")
+c.modifies("loky_tracker()._fd", "loky_tracker()._pid", f"glob:loky.backend.spawn.old_main_modules", "mp_tracker()._fd", "mp_tracker()._pid",
+           "process.current_process().name", "process.current_process().authkey")
+c.assumes("A-user")
+S.cls("Logger", {"handlers": T.Ref("HandlerList")}, external=True)
+S.cls("HandlerList", {}, external=True)
+S.cls("Handler", {}, external=True)
+S.ext("multiprocessing.util.get_logger", cite="util.get_logger(): multiprocessing's logger").returns(T.Ref("Logger")).modifies().is_pure()
+S.ext("Logger.setLevel", cite="Logger.setLevel(level): logging configuration, not tracked").param("self", T.Ref("Logger")).param("level", T.Obj).modifies().is_quiet()
+S.ext("HandlerList.__getitem__", cite="list indexing").param("self", T.Ref("HandlerList")).param("i", T.Obj).returns(T.Ref("Handler")).modifies().is_pure()
+S.ext("Handler.setFormatter", cite="Handler.setFormatter(fmt): logging configuration, not tracked").param("self", T.Ref("Handler")).param("fmt", T.Obj).modifies().is_quiet()
+
+# ======================================================================
+# initializers.py (C18: every worker runs the configured initializer first)
+IN = Module("loky.initializers")
+IN.cls("_ChainedInitializer", {"_initializers": T.Obj})
+S.contracts["loky.initializers:_prepare_initializer"].trusted_summary = False
+c = S.contracts["loky.initializers:_prepare_initializer"]
+c.ensures("prepare/chains-the-user-initializer-first",
+          "log_count('call:_chain_initializers') == 1 and result is log_arg('call:_chain_initializers', 0, 0)", prop="C18")
+c.exsures_[:] = []
+c.raises("prepare/non-callable-rejected-before-anything-else", "TypeError", post="initializer is not None and not callable_(initializer) and log_len() == 0", prop="C18")
+c.raises_only("prepare/only-typeerror")
+c = IN.contract("_make_viztracer_initializer_and_initargs")
+c.returns(T.Tup(T.Obj, T.Obj)).modifies()
+c.trusted_summary = True
+c = IN.contract("_chain_initializers", props=["C18"])
+c.param("initializer_and_args", T.Obj)
+c.returns(T.Tup(T.Obj, T.Obj)).modifies()
+c.trusted_summary = True
+c.note("the filtering/chaining loop builds Python lists of unknown length: left as an assumed summary (bounded stand-in in the thorough tier)")
+S.ext("logging.Formatter", cite="logging.Formatter(fmt)").param("fmt", T.Obj).returns(T.Obj).modifies()
